@@ -9,7 +9,7 @@ COMMON_NOTE = ("Trusted: Lean 4.33 kernel, axioms {propext, Classical.choice, Qu
                "generic crate at an exact rational scalar against the model at Rat, plus f64 outcome/bit comparisons; ndarray, "
                "num-traits and the Rust type system are modelled, not verified. For the arithmetic kernels a translator regenerates their Lean "
                "definitions from /repo/src on every run and the FT_* theorems re-prove, for every input, that the model is built from "
-               "exactly those kernels (DESIGN 9.6). ")
+               "exactly those kernels (DESIGN 9.6); the control flow of monotonic_prop and get_lower_index is re-translated too (FT_ctl_*, DESIGN 9.7). ")
 CLAIMED = {
  "C01": ("Kernel-checked theorems for every strictly increasing axis, every length, every lane structure and every in-range query: "
          "C01_struct/C01_exact (value of the line through the bracketing points), C01_knot, C01_hull, C01_default_axis, and "
@@ -70,17 +70,17 @@ CLAIMED = {
          "comparison operators (C10_axis_unmodified, C10_nan via C12_nan), Linear/Bilinear build iff validation, spline = validation then "
          "the strategy's own errors unchanged. The full decision table (1 496 cases quick) through model and code with an independent Valid "
          "oracle; D4 witnesses in the corpus.", "§5 C10", "spline build on validated n-d input: no-panic by C02_build per lane + runs",
-         "Lean 4 proof (case analysis of the chain over C12) + exhaustive decision-table correspondence"),
+         "Lean 4 proof (case analysis of the chain over C12) + exhaustive decision-table correspondence + decision-table and control-flow ties (validation steps, minimum lengths and monotonic_prop re-translated from the source each run; FT_tab_*, FT_ctl_* theorems)"),
  "C11": ("Theorems for every axis/length/guess/query (C11_bracket for ANY in-range initial guess, C11_guess, C11_exact, C11_unique) over "
          "any linear order resp. ordered field; C11_of_guess (any element arithmetic, as soon as the guess is an index) and C11_exact_I (i64 axes: "
          "the truncating integer guess is q-x0 on unit spacing and 0 otherwise). Exact-rational, f64 and i64 correspondence of get_lower_index "
          "(i64 axes incl. magnitudes above 2^53 and small-step axes), linear-scan oracle, exhaustive (length, guess, rank) family.", "§5 C11",
-         "GuessOK for floats exercised, not proved; non-NaN float order trusted",
-         "Lean 4 proof (bisection invariant by fun_induction, field arithmetic) + exact-rational correspondence + formula tie (kernels re-translated from the source each run, FT_* theorems)"),
+         "GuessOK for floats: proved under the standard model of fp arithmetic without over/underflow for axes of fewer than 1/(7u+6u^2) points (C11_guess_rounding, C11_float_stdmodel), exercised beyond; non-NaN float order trusted",
+         "Lean 4 proof (bisection invariant by fun_induction, field arithmetic, standard-model rounding bound for the guess) + exact-rational correspondence + formula tie + control-flow tie (get_lower_index re-translated statement by statement from the source each run into Gen/Control.lean; FT_ctl_bisect, FT_ctl_lower_index prove it equal to the model for every input)"),
  "C12": ("Theorems for every list: C12_classify/C12_iff (any linear order), C12_nan (no assumption on the comparisons), "
          "C12_shortcircuit, C12_iff_I (instantiated at the i64 model); exhaustive relation words at Q, f64 (incl. saturating extremes and equal "
          "infinities) and i64 (small and above 2^53), every NaN placement, through crate and model.", "§5 C12",
-         "IEEE non-NaN order trusted", "Lean 4 proof (automaton invariant by induction) + exhaustive word correspondence"),
+         "IEEE non-NaN order trusted", "Lean 4 proof (automaton invariant by induction) + exhaustive word correspondence + control-flow tie (the automaton and monotonic_prop re-translated from the source each run into Gen/Control.lean; FT_ctl_update / _short_circuit / _finish / _mono_prop prove them equal to the model for every input)"),
  "C13": ("Kernel-checked: C13_buffer (view model: any two buffers of equal shape with injective addressing receive the same logical contents "
          "— no stride condition; false of the unrepaired reshape path) and C13_facts (regenerated source facts: no layout-sensitive "
          "ndarray API is called outside tests). Every case is run with random layouts of data/axes/queries/buffers against the "
